@@ -986,8 +986,15 @@ def gen_history(rng, tier, scenario):
             g.emit(dict(k='add', t=ci, e=j))
         L = min(L, 30)
         edit_elems = rng.random() < .25       # histories that edit elements hit the recorded finding F-12b
+        conts = [ci]
+        if rng.random() < .35:                # a deep copy of the container must be a working, independent container
+            if rng.random() < .5:
+                g.emit(g.reader(ci))
+            g.emit(dict(k='copy', t=ci))
+            conts.append(len(g.store) - 1)
         while len(g.ops) < L:
             r = rng.random()
+            ci = rng.choice(conts)
             if r < .40:
                 g.emit(g.reader(ci))
             elif r < .75:
